@@ -1,4 +1,575 @@
-From Coq Require Import List NArith Bool Lia Arith.
-From Mdns Require Import Res Bytes Utf8 Rec Wire WireOut Rfc1035 C02Spec.
+(* The crate-decoder MODEL (Model/Wire.v) reads the same content as the independent REFERENCE
+   parser (Model/Rfc1035.v) on every datagram the reference parser accepts and whose content
+   is within the decoder's vocabulary (UTF-8 labels, record types PTR/CNAME/SRV/TXT/A/AAAA
+   with A of 4 and AAAA of 16 octets, question types known to RRType::from_u16).
+
+   No statement had to be weakened: there is no `_partial` item in this file. *)
+From Coq Require Import List NArith Bool Lia Arith PeanoNat ZifyBool ZifyNat ZifyN.
+From Mdns Require Import Res Bytes Utf8 Rec Wire WireOut Rfc1035 C02Spec WireProofs.
 Import ListNotations.
 Open Scope N_scope.
+
+#[local] Arguments N.add : simpl never.
+#[local] Arguments N.sub : simpl never.
+#[local] Arguments N.mul : simpl never.
+#[local] Arguments N.eqb : simpl never.
+#[local] Arguments N.ltb : simpl never.
+#[local] Arguments N.leb : simpl never.
+#[local] Arguments N.land : simpl never.
+#[local] Arguments N.of_nat : simpl never.
+#[local] Arguments N.to_nat : simpl never.
+
+(* ================================================================================== *)
+(* A. Names                                                                           *)
+(* ================================================================================== *)
+
+Definition labels_ok (ls : rlabels) : Prop :=
+  Forall (fun l => l <> [] /\ utf8_valid l = true) ls.
+
+Definition label_okb (l : bytes) : bool :=
+  match l with [] => false | _ :: _ => utf8_valid l end.
+Definition labels_okb (ls : rlabels) : bool := forallb label_okb ls.
+
+Lemma labels_okb_ok ls : labels_okb ls = true <-> labels_ok ls.
+Proof.
+  unfold labels_okb, labels_ok. rewrite forallb_forall, Forall_forall.
+  split; intros H l Hl; specialize (H l Hl); destruct l as [|b t]; cbn [label_okb] in *.
+  - discriminate.
+  - split; [discriminate|exact H].
+  - destruct H as [H _]. congruence.
+  - apply H.
+Qed.
+
+Lemma wf_skipn k : forall d, wf_bytes d -> wf_bytes (skipn k d).
+Proof.
+  unfold wf_bytes. induction k as [|k IH]; intros d H; [exact H|].
+  destruct d as [|x d]; [constructor|]. cbn [skipn]. apply IH. inversion H; assumption.
+Qed.
+
+(* facts about one byte, by enumeration *)
+Definition byte_prop (l : N) : bool :=
+  if l <? 64 then N.land l 192 =? 0
+  else if 192 <=? l then (N.land l 192 =? 192) && (N.land l 63 =? l - 192)
+  else true.
+
+Lemma byte_cases (P : N -> bool) :
+  forallb P (map N.of_nat (seq 0 256)) = true -> forall l, l < 256 -> P l = true.
+Proof.
+  intros H l Hl. rewrite forallb_forall in H. apply H. apply in_map_iff.
+  exists (N.to_nat l). split; [lia|]. apply in_seq. lia.
+Qed.
+
+Lemma byte_prop_ok l : l < 256 -> byte_prop l = true.
+Proof. apply byte_cases. vm_compute. reflexivity. Qed.
+
+Lemma byte_small l : l < 256 -> l <? 64 = true -> N.land l 192 = 0.
+Proof.
+  intros Hl H. pose proof (byte_prop_ok l Hl) as P. unfold byte_prop in P. rewrite H in P.
+  apply N.eqb_eq. exact P.
+Qed.
+
+Lemma byte_ptr l : l < 256 -> 192 <=? l = true -> N.land l 192 = 192 /\ N.land l 63 = l - 192.
+Proof.
+  intros Hl H. pose proof (byte_prop_ok l Hl) as P. unfold byte_prop in P.
+  destruct (l <? 64) eqn:E; [lia|]. rewrite H in P.
+  apply andb_true_iff in P as [P1 P2]. apply N.eqb_eq in P1, P2. split; assumption.
+Qed.
+
+Lemma dotted_cons l ls : dotted (l :: ls) = (l ++ [46]) ++ dotted ls.
+Proof. reflexivity. Qed.
+
+Lemma dotted_app a b : dotted (a ++ b) = dotted a ++ dotted b.
+Proof. unfold dotted. apply flat_map_app. Qed.
+
+(* one run of labels: the decoder's run accumulates the dotted text of the labels the
+   reference run collects, stops at the same place and (for a pointer) sees the same target *)
+Lemma run_rn fuel : forall rest off acc,
+  wf_bytes rest ->
+  match run fuel rest off with
+  | RunEnd ls n => labels_ok ls -> rn_labels fuel rest off acc = LEnd (acc ++ dotted ls) n
+  | RunPtr ls n t => labels_ok ls -> rn_labels fuel rest off acc = LPtr (acc ++ dotted ls) n t
+  | RunBad => True
+  end.
+Proof.
+  induction fuel as [|f IH]; intros rest off acc Hwf; cbn [run rn_labels]; [exact I|].
+  destruct rest as [|l tl]; [exact I|].
+  inversion Hwf as [|? ? Hl Htl]; subst.
+  destruct (l =? 0) eqn:E0.
+  { intros _. cbn [dotted flat_map]. rewrite app_nil_r. reflexivity. }
+  destruct (l <? 64) eqn:E64.
+  - rewrite (byte_small l Hl E64). change (0 =? 0) with true. cbv iota.
+    destruct (Nat.ltb (length tl) (N.to_nat l)) eqn:E2; [exact I|].
+    specialize (IH (skipn (N.to_nat l) tl) (off + 1 + l)
+                   (acc ++ firstn (N.to_nat l) tl ++ [46]) (wf_skipn _ _ Htl)).
+    destruct (run f (skipn (N.to_nat l) tl) (off + 1 + l)) as [ls n|ls n t|]; [| |exact I];
+      intros Hok; inversion Hok as [|? ? [_ Hu] Hok']; subst; rewrite Hu, (IH Hok');
+      rewrite dotted_cons, <- !app_assoc; reflexivity.
+  - destruct (192 <=? l) eqn:E192; [|exact I].
+    destruct tl as [|b1 tl']; [exact I|]. intros _.
+    destruct (byte_ptr l Hl E192) as [H1 H2]. rewrite H1, H2.
+    change (192 =? 0) with false. change (192 =? 192) with true. cbv iota.
+    cbn [dotted flat_map]. rewrite app_nil_r. reflexivity.
+Qed.
+
+Lemma ref_name_from_rn jumps : forall d off limit ls n acc ret,
+  wf_bytes d -> ref_name_from jumps d off limit = Some (ls, n) -> labels_ok ls ->
+  read_name_from jumps d off limit acc ret
+  = Ok (acc ++ dotted ls, match ret with Some r => r | None => n end).
+Proof.
+  induction jumps as [|j IH]; intros d off limit ls n acc ret Hwf H Hok; [discriminate|].
+  cbn [ref_name_from] in H. cbn [read_name_from].
+  pose proof (run_rn (S (length (skipn (N.to_nat off) d))) (skipn (N.to_nat off) d) off acc
+                (wf_skipn _ _ Hwf)) as Hr.
+  destruct (run (S (length (skipn (N.to_nat off) d))) (skipn (N.to_nat off) d) off)
+    as [ls1 n1|ls1 n1 t|] eqn:Er; [| |discriminate].
+  - injection H as Hls Hn. subst ls1 n1. rewrite (Hr Hok). reflexivity.
+  - destruct (limit <=? t) eqn:El; [discriminate|].
+    destruct (ref_name_from j d t t) as [[ls' n']|] eqn:Ej; [|discriminate].
+    injection H as Hls Hn. subst ls n1. apply Forall_app in Hok as [Hok1 Hok2].
+    rewrite (Hr Hok1), El.
+    rewrite (IH d t t ls' n' (acc ++ dotted ls1)
+               (Some match ret with Some r => r | None => n end) Hwf Ej Hok2).
+    rewrite dotted_app, app_assoc. reflexivity.
+Qed.
+
+(* Target A *)
+Lemma read_name_ref : forall d off ls n,
+  wf_bytes d -> ref_name d off = Some (ls, n) -> labels_ok ls ->
+  read_name d off = Ok (dotted ls, n).
+Proof.
+  intros d off ls n Hwf H Hok. unfold read_name, ref_name in *.
+  rewrite (ref_name_from_rn _ _ _ _ _ _ [] None Hwf H Hok). reflexivity.
+Qed.
+
+(* ================================================================================== *)
+(* B. Entries                                                                         *)
+(* ================================================================================== *)
+
+(* ---- fixed-width fields ---- *)
+
+Lemma nth_error_skipn_cons : forall k (d : bytes) a,
+  nth_error d k = Some a -> skipn k d = a :: skipn (S k) d.
+Proof.
+  induction k as [|k IH]; intros [|x d] a H; cbn [nth_error] in H; try discriminate.
+  - injection H as Hx. subst x. reflexivity.
+  - cbn [skipn]. apply IH in H. exact H.
+Qed.
+
+Lemma nth_error_len {A} (d : list A) k a : nth_error d k = Some a -> (k < length d)%nat.
+Proof. intros H. apply nth_error_Some. congruence. Qed.
+
+Lemma ref_u16_at d off v :
+  ref_u16 d off = Some v -> u16_at d off = Ok v /\ off + 2 <= len d.
+Proof.
+  unfold ref_u16, nth_byte. intros H.
+  destruct (nth_error d (N.to_nat off)) as [a|] eqn:Ea; [|discriminate].
+  destruct (nth_error d (N.to_nat (off + 1))) as [b|] eqn:Eb; [|discriminate].
+  injection H as Hv. subst v.
+  replace (N.to_nat (off + 1)) with (S (N.to_nat off)) in Eb by lia.
+  pose proof (nth_error_len _ _ _ Eb) as Hlen.
+  assert (Hle : off + 2 <= len d) by (unfold len; lia).
+  split; [|exact Hle].
+  unfold u16_at, slice. destruct (off + 2 <=? len d) eqn:E; [|lia].
+  rewrite (nth_error_skipn_cons _ _ _ Ea), (nth_error_skipn_cons _ _ _ Eb).
+  change (N.to_nat 2) with 2%nat. cbn [firstn bind]. reflexivity.
+Qed.
+
+Lemma ref_u32_at d off v :
+  ref_u32 d off = Some v -> u32_at d off = Ok v /\ off + 4 <= len d.
+Proof.
+  unfold ref_u32, ref_u16, nth_byte. intros H.
+  destruct (nth_error d (N.to_nat off)) as [b0|] eqn:E0; [|discriminate].
+  destruct (nth_error d (N.to_nat (off + 1))) as [b1|] eqn:E1; [|discriminate].
+  destruct (nth_error d (N.to_nat (off + 2))) as [b2|] eqn:E2; [|discriminate].
+  destruct (nth_error d (N.to_nat (off + 2 + 1))) as [b3|] eqn:E3; [|discriminate].
+  injection H as Hv. subst v.
+  replace (N.to_nat (off + 1)) with (S (N.to_nat off)) in E1 by lia.
+  replace (N.to_nat (off + 2)) with (S (S (N.to_nat off))) in E2 by lia.
+  replace (N.to_nat (off + 2 + 1)) with (S (S (S (N.to_nat off)))) in E3 by lia.
+  pose proof (nth_error_len _ _ _ E3) as Hlen.
+  assert (Hle : off + 4 <= len d) by (unfold len; lia).
+  split; [|exact Hle].
+  unfold u32_at, slice. destruct (off + 4 <=? len d) eqn:E; [|lia].
+  rewrite (nth_error_skipn_cons _ _ _ E0), (nth_error_skipn_cons _ _ _ E1),
+          (nth_error_skipn_cons _ _ _ E2), (nth_error_skipn_cons _ _ _ E3).
+  change (N.to_nat 4) with 4%nat. cbn [firstn bind]. f_equal. lia.
+Qed.
+
+Lemma ref_bytes_slice d off n b :
+  ref_bytes d off n = Some b ->
+  slice d off n = Ok b /\ off + n <= len d /\ length b = N.to_nat n.
+Proof.
+  unfold ref_bytes, slice, len. intros H.
+  destruct (off + n <=? N.of_nat (length d)) eqn:E; [|discriminate].
+  injection H as Hb. subst b. split; [reflexivity|]. split; [lia|].
+  apply firstn_length_le. rewrite skipn_length. lia.
+Qed.
+
+Lemma read_u16_ref d off v :
+  ref_u16 d off = Some v -> read_u16 d off = Ok (v, off + 2).
+Proof.
+  intros H. apply ref_u16_at in H as [H Hle]. unfold read_u16.
+  destruct (len d - off <? 2) eqn:E; [lia|]. rewrite H. reflexivity.
+Qed.
+
+(* ---- vocabulary ---- *)
+
+Definition rdata_in_vocab (ty : N) (rd : ref_rdata) : bool :=
+  match rd with
+  | FName ls => labels_okb ls
+  | FSrv _ _ _ ls => labels_okb ls
+  | FRaw b => (ty =? 16) || ((ty =? 1) && (blen b =? 4)) || ((ty =? 28) && (blen b =? 16))
+  end.
+
+Definition rr_in_vocab (r : ref_rr) : bool :=
+  labels_okb (fr_name r) && rdata_in_vocab (fr_type r) (fr_data r).
+
+Definition q_in_vocab (q : ref_q) : bool :=
+  labels_okb (fq_name q) && known_type (fq_type q).
+
+(* within the vocabulary, the presentation exists *)
+Lemma rdata_in_vocab_present ty rd :
+  rdata_in_vocab ty rd = true -> exists x, present_rdata ty rd = Some x.
+Proof.
+  destruct rd as [b|ls|p w po ls]; cbn [rdata_in_vocab present_rdata];
+    [|eexists; reflexivity|eexists; reflexivity].
+  destruct (ty =? 16); [eexists; reflexivity|].
+  destruct (ty =? 1); [eexists; reflexivity|].
+  destruct (ty =? 28); [eexists; reflexivity|].
+  cbn [orb andb]. intros H. discriminate H.
+Qed.
+
+Lemma rr_in_vocab_present resp r :
+  rr_in_vocab r = true -> exists pr, present_rr resp r = Some pr.
+Proof.
+  unfold rr_in_vocab, present_rr. intros H. apply andb_true_iff in H as [_ H].
+  destruct (rdata_in_vocab_present _ _ H) as [x Hx]. rewrite Hx. eauto.
+Qed.
+
+(* ---- RDATA ---- *)
+
+Lemma read_rdata_ref d ty off rdlen rd x :
+  wf_bytes d -> ref_rdata_at d ty off rdlen = Some rd -> rdata_in_vocab ty rd = true ->
+  present_rdata ty rd = Some x ->
+  known_type ty = true /\ off + rdlen <= len d /\
+  read_rdata d ty off rdlen = Ok (Some x, off + rdlen).
+Proof.
+  intros Hwf H Hv Hp. unfold ref_rdata_at in H.
+  destruct ((ty =? 12) || (ty =? 5)) eqn:Eptr.
+  { destruct (ref_name d off) as [[ls o]|] eqn:En; [|discriminate].
+    destruct (o =? off + rdlen) eqn:Eo; [|discriminate]. apply N.eqb_eq in Eo. subst o.
+    injection H as Hrd. subst rd. cbn [rdata_in_vocab present_rdata] in Hv, Hp.
+    injection Hp as Hx. subst x. apply labels_okb_ok in Hv.
+    pose proof (read_name_ref d off ls _ Hwf En Hv) as Hn.
+    pose proof (read_name_offset _ _ _ _ Hn) as [_ Hle].
+    split; [|split; [exact Hle|]].
+    - unfold known_type. apply orb_true_iff in Eptr as [E|E]; rewrite E;
+        rewrite ?orb_true_r; reflexivity.
+    - unfold read_rdata, TY_CNAME, TY_PTR. rewrite (orb_comm (ty =? 5)), Eptr, Hn. reflexivity. }
+  apply orb_false_iff in Eptr as [E12 E5].
+  destruct (ty =? 33) eqn:E33.
+  { apply N.eqb_eq in E33. subst ty.
+    destruct (ref_u16 d off) as [p|] eqn:Ep; [|discriminate].
+    destruct (ref_u16 d (off + 2)) as [w|] eqn:Ew; [|discriminate].
+    destruct (ref_u16 d (off + 4)) as [po|] eqn:Epo; [|discriminate].
+    destruct (ref_name d (off + 6)) as [[ls o]|] eqn:En; [|discriminate].
+    destruct (o =? off + rdlen) eqn:Eo; [|discriminate]. apply N.eqb_eq in Eo. subst o.
+    injection H as Hrd. subst rd. cbn [rdata_in_vocab present_rdata] in Hv, Hp.
+    injection Hp as Hx. subst x. apply labels_okb_ok in Hv.
+    pose proof (read_name_ref d (off + 6) ls _ Hwf En Hv) as Hn.
+    pose proof (read_name_offset _ _ _ _ Hn) as [_ Hle].
+    split; [reflexivity|]. split; [exact Hle|].
+    change (read_rdata d 33 off rdlen) with
+      (let? (p, o1) := read_u16 d off in
+       let? (w, o2) := read_u16 d o1 in
+       let? (po, o3) := read_u16 d o2 in
+       let? (h, o4) := read_name d o3 in
+       Ok (Some (RSrv p w po h), o4)).
+    rewrite (read_u16_ref _ _ _ Ep). cbn [bind].
+    rewrite (read_u16_ref _ _ _ Ew). cbn [bind].
+    replace (off + 2 + 2) with (off + 4) by lia.
+    rewrite (read_u16_ref _ _ _ Epo). cbn [bind].
+    replace (off + 4 + 2) with (off + 6) by lia.
+    rewrite Hn. reflexivity. }
+  destruct (ref_bytes d off rdlen) as [b|] eqn:Eb; [|discriminate].
+  injection H as Hrd. subst rd. cbn [rdata_in_vocab present_rdata] in Hv, Hp.
+  apply ref_bytes_slice in Eb as (Hs & Hle & Hlen).
+  destruct (ty =? 16) eqn:E16.
+  { apply N.eqb_eq in E16. subst ty. injection Hp as Hx. subst x.
+    split; [reflexivity|]. split; [exact Hle|].
+    change (read_rdata d 16 off rdlen) with
+      (let? (t, o) := read_vec d off rdlen in Ok (Some (RTxt t), o)).
+    unfold read_vec. destruct (len d <? off + rdlen) eqn:E; [lia|]. rewrite Hs. reflexivity. }
+  cbn [orb] in Hv. unfold blen in Hv.
+  destruct (ty =? 1) eqn:E1.
+  { apply N.eqb_eq in E1. subst ty. cbn [orb andb] in Hv, Hp. injection Hp as Hx. subst x.
+    assert (rdlen = 4) by lia. subst rdlen.
+    split; [reflexivity|]. split; [exact Hle|].
+    change (read_rdata d 1 off 4) with
+      (if len d <? off + 4 then Err
+       else let? s := slice d off 4 in Ok (Some (RAddr s), off + 4)).
+    destruct (len d <? off + 4) eqn:E; [lia|]. rewrite Hs. reflexivity. }
+  destruct (ty =? 28) eqn:E28; [|discriminate].
+  apply N.eqb_eq in E28. subst ty. cbn [orb andb] in Hv, Hp. injection Hp as Hx. subst x.
+  assert (rdlen = 16) by lia. subst rdlen.
+  split; [reflexivity|]. split; [exact Hle|].
+  change (read_rdata d 28 off 16) with
+    (if len d <? off + 16 then Err
+     else let? s := slice d off 16 in Ok (Some (RAddr s), off + 16)).
+  destruct (len d <? off + 16) eqn:E; [lia|]. rewrite Hs. reflexivity.
+Qed.
+
+(* ---- one record (Target B) ---- *)
+
+Lemma read_one_rr_ref : forall d resp off r o pr,
+  wf_bytes d -> ref_record d off = Some (r, o) -> rr_in_vocab r = true ->
+  present_rr resp r = Some pr ->
+  read_one_rr d resp off = Ok (Some pr, o).
+Proof.
+  intros d resp off r o pr Hwf H Hv Hp. unfold ref_record in H.
+  destruct (ref_name d off) as [[ls o1]|] eqn:En; [|discriminate].
+  destruct (ref_u16 d o1) as [ty|] eqn:Ety; [|discriminate].
+  destruct (ref_u16 d (o1 + 2)) as [cl|] eqn:Ecl; [|discriminate].
+  destruct (ref_u32 d (o1 + 4)) as [ttl|] eqn:Ettl; [|discriminate].
+  destruct (ref_u16 d (o1 + 8)) as [rdlen|] eqn:Erl; [|discriminate].
+  destruct (ref_rdata_at d ty (o1 + 10) rdlen) as [rd|] eqn:Erd; [|discriminate].
+  injection H as Hr Ho. subst r o.
+  unfold rr_in_vocab in Hv. cbn [fr_name fr_type fr_data] in Hv.
+  apply andb_true_iff in Hv as [Hls Hrdv]. apply labels_okb_ok in Hls.
+  unfold present_rr in Hp. cbn [fr_name fr_type fr_data fr_class fr_ttl] in Hp.
+  destruct (present_rdata ty rd) as [x|] eqn:Ex; [|discriminate].
+  injection Hp as Hpr. subst pr.
+  destruct (read_rdata_ref d ty (o1 + 10) rdlen rd x Hwf Erd Hrdv Ex) as (Hk & Hle & Hrdata).
+  apply ref_u16_at in Ety as [Hty _]. apply ref_u16_at in Ecl as [Hcl _].
+  apply ref_u32_at in Ettl as [Httl _]. apply ref_u16_at in Erl as [Hrl Hrl10].
+  unfold read_one_rr. rewrite (read_name_ref d off ls o1 Hwf En Hls). cbn [bind].
+  destruct (len d - o1 <? 10) eqn:E10; [lia|].
+  rewrite Hty, Hcl, Httl, Hrl. cbn [bind]. cbv zeta.
+  destruct (len d <? o1 + 10 + rdlen) eqn:En2; [lia|].
+  rewrite Hk, Hrdata. cbn [bind]. rewrite N.eqb_refl. reflexivity.
+Qed.
+
+(* same, producing the presentation *)
+Corollary read_one_rr_ref_ex d resp off r o :
+  wf_bytes d -> ref_record d off = Some (r, o) -> rr_in_vocab r = true ->
+  exists pr, present_rr resp r = Some pr /\ read_one_rr d resp off = Ok (Some pr, o).
+Proof.
+  intros Hwf H Hv. destruct (rr_in_vocab_present resp r Hv) as [pr Hp].
+  exists pr. split; [exact Hp|]. eapply read_one_rr_ref; eassumption.
+Qed.
+
+(* the corresponding step of read_rrs *)
+Lemma read_rrs_step_ref f count d resp off r o pr :
+  wf_bytes d -> ref_record d off = Some (r, o) -> rr_in_vocab r = true ->
+  present_rr resp r = Some pr -> count <> 0 ->
+  read_rrs (S f) count d resp off
+  = (let? (rs, off2) := read_rrs f (count - 1) d resp o in Ok (pr :: rs, off2)).
+Proof.
+  intros Hwf H Hv Hp Hc. cbn [read_rrs]. apply N.eqb_neq in Hc. rewrite Hc.
+  rewrite (read_one_rr_ref d resp off r o pr Hwf H Hv Hp). reflexivity.
+Qed.
+
+(* ---- one question (Target B) ---- *)
+
+Lemma read_questions_step_ref f count d off q o :
+  wf_bytes d -> ref_question d off = Some (q, o) -> q_in_vocab q = true -> count <> 0 ->
+  read_questions (S f) count d off
+  = (let? (qs, off2) := read_questions f (count - 1) d o in Ok (present_q q :: qs, off2)).
+Proof.
+  intros Hwf H Hv Hc. unfold ref_question in H.
+  destruct (ref_name d off) as [[ls o1]|] eqn:En; [|discriminate].
+  destruct (ref_u16 d o1) as [ty|] eqn:Ety; [|discriminate].
+  destruct (ref_u16 d (o1 + 2)) as [cl|] eqn:Ecl; [|discriminate].
+  injection H as Hq Ho. subst q o.
+  unfold q_in_vocab in Hv. cbn [fq_name fq_type] in Hv.
+  apply andb_true_iff in Hv as [Hls Hk]. apply labels_okb_ok in Hls.
+  apply ref_u16_at in Ety as [Hty _]. apply ref_u16_at in Ecl as [Hcl Hcl4].
+  cbn [read_questions]. apply N.eqb_neq in Hc. rewrite Hc.
+  rewrite (read_name_ref d off ls o1 Hwf En Hls). cbn [bind].
+  destruct (len d - o1 <? 4) eqn:E4; [lia|].
+  rewrite Hty, Hcl. cbn [bind]. rewrite Hk. reflexivity.
+Qed.
+
+(* a question accepted by the reference parser ends inside the datagram, after its start *)
+Lemma ref_question_offset d off q o :
+  wf_bytes d -> ref_question d off = Some (q, o) -> q_in_vocab q = true ->
+  off < o /\ o <= len d.
+Proof.
+  intros Hwf H Hv. unfold ref_question in H.
+  destruct (ref_name d off) as [[ls o1]|] eqn:En; [|discriminate].
+  destruct (ref_u16 d o1) as [ty|] eqn:Ety; [|discriminate].
+  destruct (ref_u16 d (o1 + 2)) as [cl|] eqn:Ecl; [|discriminate].
+  injection H as Hq Ho. subst q o.
+  unfold q_in_vocab in Hv. cbn [fq_name fq_type] in Hv.
+  apply andb_true_iff in Hv as [Hls _]. apply labels_okb_ok in Hls.
+  pose proof (read_name_offset _ _ _ _ (read_name_ref d off ls o1 Hwf En Hls)) as [Hlt _].
+  apply ref_u16_at in Ecl as [_ Hle]. lia.
+Qed.
+
+Lemma ref_record_offset d off r o :
+  wf_bytes d -> ref_record d off = Some (r, o) -> rr_in_vocab r = true ->
+  off < o /\ o <= len d.
+Proof.
+  intros Hwf H Hv. destruct (read_one_rr_ref_ex d false off r o Hwf H Hv) as (pr & _ & Hr).
+  apply read_one_rr_offset in Hr. lia.
+Qed.
+
+(* ================================================================================== *)
+(* C. Whole message                                                                   *)
+(* ================================================================================== *)
+
+(* every question and every record of the reference parse is within the decoder's
+   vocabulary (executable) *)
+Definition within_vocabularyb (rm : ref_msg) : bool :=
+  forallb q_in_vocab (fm_questions rm) && forallb rr_in_vocab (fm_answers rm)
+  && forallb rr_in_vocab (fm_authorities rm) && forallb rr_in_vocab (fm_additionals rm).
+
+Definition within_vocabulary (rm : ref_msg) : Prop := within_vocabularyb rm = true.
+
+(* ---- reflexivity of the comparison functions ---- *)
+
+Lemma beq_rdata_refl x : beq_rdata x x = true.
+Proof. destruct x; cbn [beq_rdata]; rewrite ?beq_refl, ?N.eqb_refl; reflexivity. Qed.
+
+Lemma rr_beq_refl x : rr_beq x x = true.
+Proof.
+  unfold rr_beq. rewrite beq_refl, !N.eqb_refl, Bool.eqb_reflx, beq_rdata_refl. reflexivity.
+Qed.
+
+Lemma q_beq_refl x : q_beq x x = true.
+Proof. unfold q_beq. rewrite beq_refl, !N.eqb_refl, Bool.eqb_reflx. reflexivity. Qed.
+
+Lemma list_beq_refl {A} (eqb : A -> A -> bool) :
+  (forall x, eqb x x = true) -> forall l, list_beq eqb l l = true.
+Proof.
+  intros H l. induction l as [|x l IH]; cbn [list_beq]; [reflexivity|]. rewrite H, IH. reflexivity.
+Qed.
+
+(* ---- sections ---- *)
+
+Lemma read_questions_zero fuel d off : read_questions fuel 0 d off = Ok ([], off).
+Proof. destruct fuel; reflexivity. Qed.
+
+Lemma read_rrs_zero fuel d resp off : read_rrs fuel 0 d resp off = Ok ([], off).
+Proof. destruct fuel; reflexivity. Qed.
+
+Lemma read_questions_ref : forall n d off qs o fuel count,
+  wf_bytes d -> ref_questions n d off = Some (qs, o) -> n = N.to_nat count ->
+  len d - off < N.of_nat fuel -> forallb q_in_vocab qs = true ->
+  read_questions fuel count d off = Ok (map present_q qs, o).
+Proof.
+  induction n as [|k IH]; intros d off qs o fuel count Hwf H Hn Hf Hv; cbn [ref_questions] in H.
+  - injection H as Hqs Ho. subst qs o. assert (count = 0) by lia. subst count.
+    apply read_questions_zero.
+  - destruct (ref_question d off) as [[q o1]|] eqn:Eq; [|discriminate].
+    destruct (ref_questions k d o1) as [[qs' o']|] eqn:Eqs; [|discriminate].
+    injection H as Hqs Ho. subst qs o'. cbn [forallb] in Hv.
+    apply andb_true_iff in Hv as [Hq Hv].
+    destruct fuel as [|f]; [lia|].
+    pose proof (ref_question_offset d off q o1 Hwf Eq Hq) as [Hlt Hle].
+    rewrite (read_questions_step_ref f count d off q o1 Hwf Eq Hq) by lia.
+    rewrite (IH d o1 qs' o f (count - 1) Hwf Eqs) by (first [exact Hv|lia]).
+    reflexivity.
+Qed.
+
+Lemma read_rrs_ref : forall n d resp off rs o fuel count,
+  wf_bytes d -> ref_records n d off = Some (rs, o) -> n = N.to_nat count ->
+  len d - off < N.of_nat fuel -> forallb rr_in_vocab rs = true ->
+  exists prs, opt_rrs resp rs = Some prs /\ read_rrs fuel count d resp off = Ok (prs, o).
+Proof.
+  induction n as [|k IH]; intros d resp off rs o fuel count Hwf H Hn Hf Hv;
+    cbn [ref_records] in H.
+  - injection H as Hrs Ho. subst rs o. assert (count = 0) by lia. subst count.
+    exists []. split; [reflexivity|apply read_rrs_zero].
+  - destruct (ref_record d off) as [[r o1]|] eqn:Er; [|discriminate].
+    destruct (ref_records k d o1) as [[rs' o']|] eqn:Ers; [|discriminate].
+    injection H as Hrs Ho. subst rs o'. cbn [forallb] in Hv.
+    apply andb_true_iff in Hv as [Hr Hv].
+    destruct fuel as [|f]; [lia|].
+    pose proof (ref_record_offset d off r o1 Hwf Er Hr) as [Hlt Hle].
+    destruct (rr_in_vocab_present resp r Hr) as [pr Hpr].
+    destruct (IH d resp o1 rs' o f (count - 1) Hwf Ers) as (prs & Hprs & Hread);
+      [lia|lia|exact Hv|].
+    exists (pr :: prs). split.
+    + cbn [opt_rrs fold_right]. fold (opt_rrs resp rs'). rewrite Hpr, Hprs. reflexivity.
+    + rewrite (read_rrs_step_ref f count d resp off r o1 pr Hwf Er Hr Hpr) by lia.
+      rewrite Hread. reflexivity.
+Qed.
+
+(* ---- Target C ---- *)
+
+Theorem decode_agrees_with_reference : forall d rm,
+  wf_bytes d -> ref_parse d = Some rm -> within_vocabulary rm ->
+  exists dm, decode d = Ok dm /\ decoder_agrees rm dm = true.
+Proof.
+  intros d rm Hwf H Hv. unfold ref_parse in H.
+  destruct (ref_u16 d 0) as [id|] eqn:Eid; [|discriminate].
+  destruct (ref_u16 d 2) as [fl|] eqn:Efl; [|discriminate].
+  destruct (ref_u16 d 4) as [nq|] eqn:Enq; [|discriminate].
+  destruct (ref_u16 d 6) as [na|] eqn:Ena; [|discriminate].
+  destruct (ref_u16 d 8) as [nn|] eqn:Enn; [|discriminate].
+  destruct (ref_u16 d 10) as [nr|] eqn:Enr; [|discriminate].
+  destruct (ref_questions (N.to_nat nq) d 12) as [[qs o1]|] eqn:Eqs; [|discriminate].
+  destruct (ref_records (N.to_nat na) d o1) as [[an o2]|] eqn:Ean; [|discriminate].
+  destruct (ref_records (N.to_nat nn) d o2) as [[ns o3]|] eqn:Ens; [|discriminate].
+  destruct (ref_records (N.to_nat nr) d o3) as [[ar o4]|] eqn:Ear; [|discriminate].
+  destruct (o4 =? N.of_nat (length d)); [|discriminate].
+  injection H as Hrm. subst rm.
+  unfold within_vocabulary, within_vocabularyb in Hv.
+  cbn [fm_questions fm_answers fm_authorities fm_additionals] in Hv.
+  apply andb_true_iff in Hv as [Hv Hvar]. apply andb_true_iff in Hv as [Hv Hvns].
+  apply andb_true_iff in Hv as [Hvq Hvan].
+  apply ref_u16_at in Eid as [Hid _]. apply ref_u16_at in Efl as [Hfl _].
+  apply ref_u16_at in Enq as [Hnq _]. apply ref_u16_at in Ena as [Hna _].
+  apply ref_u16_at in Enn as [Hnn _]. apply ref_u16_at in Enr as [Hnr H12].
+  set (resp := N.land fl 32768 =? 32768).
+  assert (Hfuel : forall off, len d - off < N.of_nat (S (length d))) by (intros; unfold len; lia).
+  pose proof (read_questions_ref _ d 12 qs o1 (S (length d)) nq Hwf Eqs eq_refl (Hfuel _) Hvq)
+    as Hrq.
+  destruct (read_rrs_ref _ d resp o1 an o2 (S (length d)) na Hwf Ean eq_refl (Hfuel _) Hvan)
+    as (pan & Hpan & Hran).
+  destruct (read_rrs_ref _ d resp o2 ns o3 (S (length d)) nn Hwf Ens eq_refl (Hfuel _) Hvns)
+    as (pns & Hpns & Hrns).
+  destruct (read_rrs_ref _ d resp o3 ar o4 (S (length d)) nr Hwf Ear eq_refl (Hfuel _) Hvar)
+    as (par & Hpar & Hrar).
+  exists (mkMsg id fl nq na nn nr (map present_q qs) pan pns par). split.
+  - unfold decode. destruct (len d <? 12) eqn:E; [lia|].
+    rewrite Hid, Hfl, Hnq, Hna, Hnn, Hnr. cbn [bind]. cbv zeta. fold resp.
+    rewrite Hrq. cbn [bind]. rewrite Hran. cbn [bind]. rewrite Hrns. cbn [bind].
+    rewrite Hrar. reflexivity.
+  - unfold decoder_agrees.
+    cbn [fm_id fm_flags fm_questions fm_answers fm_authorities fm_additionals
+         m_id m_flags m_questions m_answers m_authorities m_additionals].
+    fold resp. rewrite Hpan, Hpns, Hpar. rewrite !N.eqb_refl.
+    rewrite (list_beq_refl q_beq q_beq_refl), !(list_beq_refl rr_beq rr_beq_refl).
+    reflexivity.
+Qed.
+
+(* ---- the hypotheses are satisfiable: a response with one question "_a.local." PTR and one
+        PTR answer whose owner is a compression pointer, whose TTL is 0 (read as 1) and whose
+        target is "x" followed by a pointer ---- *)
+Definition example_dgram : bytes :=
+  [0;0; 132;0; 0;1; 0;1; 0;0; 0;0;
+   2;95;97; 5;108;111;99;97;108; 0;  0;12; 0;1;
+   192;12; 0;12; 128;1; 0;0;0;0; 0;4;  1;120; 192;12].
+
+Example example_in_scope :
+  wf_bytesb example_dgram = true /\
+  match ref_parse example_dgram with
+  | Some rm => within_vocabularyb rm = true /\
+               match decode example_dgram with
+               | Ok dm => decoder_agrees rm dm = true /\
+                          map r_name (m_answers dm) = [[95;97;46;108;111;99;97;108;46]] /\
+                          map r_ttl (m_answers dm) = [1] /\
+                          map r_data (m_answers dm)
+                          = [RPtr [120;46;95;97;46;108;111;99;97;108;46]]
+               | _ => False
+               end
+  | None => False
+  end.
+Proof. vm_compute. repeat split; reflexivity. Qed.
+
+Print Assumptions read_name_ref.
+Print Assumptions read_one_rr_ref.
+Print Assumptions read_questions_step_ref.
+Print Assumptions decode_agrees_with_reference.
